@@ -44,10 +44,6 @@ fn profile() -> &'static str {
     }
 }
 
-fn config_code() -> u64 {
-    (if cfg!(feature = "pext") { 1 } else { 0 }) + (if cfg!(debug_assertions) { 2 } else { 0 })
-}
-
 pub fn json_str(s: &str) -> String {
     let mut o = String::with_capacity(s.len() + 2);
     o.push('"');
